@@ -158,6 +158,28 @@ pub fn run(cx: &mut Ctx) {
                 let bv: DryocSecretBox<Vec<u8>, Vec<u8>> = DryocSecretBox::encrypt(&msg, &nonce, &key);
                 both(cx, "DryocSecretBox<Vec,Vec>", &bv, &|x, y| x == y && y.decrypt::<Vec<u8>, _, _>(&nonce, &key).ok().as_deref() == Some(&msg[..]), &d);
                 expect_eq(cx, "C16|DryocSecretBox|into_vec_differs_from_to_bytes", &dryoc::dryocsecretbox::VecBox::encrypt_to_vecbox(&msg, &nonce, &key).into_vec(), &wire, d);
+                // the same box with spare capacity behind its payload (a Vec's capacity is hidden state: boxes built from
+                // parts or filled element by element by a deserialiser have it, freshly encrypted ones do not)
+                for spare in [1usize, 15, 16, 17, 64] {
+                    let (tag, data) = b.clone().into_parts();
+                    let mut roomy = Vec::with_capacity(data.len() + spare);
+                    roomy.extend_from_slice(&data);
+                    let rb: dryoc::dryocsecretbox::VecBox = DryocSecretBox::from_parts(tag, roomy);
+                    let d2 = || json!({"payload_len":len,"spare_capacity":spare});
+                    expect_eq(cx, "C16|DryocSecretBox|to_vec_differs_from_wire_layout|spare_capacity", &rb.to_vec(), &wire, d2);
+                    expect_eq(cx, "C16|DryocSecretBox|to_bytes_differs_from_wire_layout|spare_capacity", &rb.to_bytes::<Vec<u8>>(), &wire, d2);
+                    if let Some(v) = call(cx, "C16|DryocSecretBox::into_vec", "DryocSecretBox::into_vec", d2, || rb.into_vec()) {
+                        expect_eq(cx, "C16|DryocSecretBox|into_vec_differs_from_wire_layout|spare_capacity", &v, &wire, d2);
+                    }
+                    cx.cover("spare_capacity", &format!("secretbox+{}", spare));
+                }
+                if let Ok(js) = serde_json::to_string(&b) {
+                    if let Ok(jb) = serde_json::from_str::<dryoc::dryocsecretbox::VecBox>(&js) {
+                        if let Some(v) = call(cx, "C16|DryocSecretBox::into_vec", "DryocSecretBox::into_vec", d, || jb.into_vec()) {
+                            expect_eq(cx, "C16|DryocSecretBox|into_vec_differs_from_wire_layout|after_json_round_trip", &v, &wire, d);
+                        }
+                    }
+                }
             }
             // ---- DryocBox plain + sealed
             {
@@ -175,6 +197,16 @@ pub fn run(cx: &mut Ctx) {
                 let (tag, data, epk) = b.clone().into_parts();
                 expect(cx, "C16|DryocBox|from_parts(into_parts)_not_equal", DryocBox::from_parts(tag, data, epk) == b, d);
                 both(cx, "DryocBox<Stack,Stack,Vec>", &b, &|x, y| x == y && open(y).as_deref() == Some(&msg[..]), &d);
+                for spare in [1usize, 16, 33] {
+                    let (tag, data, epk) = b.clone().into_parts();
+                    let mut roomy = Vec::with_capacity(data.len() + spare);
+                    roomy.extend_from_slice(&data);
+                    let rb: dryoc::dryocbox::VecBox = DryocBox::from_parts(tag, roomy, epk);
+                    let d2 = || json!({"payload_len":len,"spare_capacity":spare});
+                    expect_eq(cx, "C16|DryocBox|to_vec_differs_from_wire_layout|spare_capacity", &rb.to_vec(), &wire, d2);
+                    expect_eq(cx, "C16|DryocBox|to_bytes_differs_from_wire_layout|spare_capacity", &rb.to_bytes::<Vec<u8>>(), &wire, d2);
+                    cx.cover("spare_capacity", &format!("box+{}", spare));
+                }
 
                 let s = dryoc::dryocbox::VecBox::seal_to_vecbox(&msg, &StackByteArray::from(bpk)).unwrap();
                 let swire = s.to_vec();
